@@ -20,6 +20,54 @@ func init() {
 	gens["c04-bodybytes"] = c04BodyBytes
 	gens["c04-long"] = c04Long
 	gens["c04-runes"] = c04Runes
+	gens["c04-literals"] = c04Literals
+}
+
+// c04Literals: bodies made of the string literals of the tree's auparse package (whatever its code
+// compares keys and values against): every key-like literal = every literal, plain and quoted, for the
+// record-type classes and every AUDIT_ type the package names.  The header fields and ToMapStr's header
+// keys do not depend on what the body says.
+func c04Literals(c *enumx.Ctx) {
+	hv := harvestedAuparse()
+	types := append([]uint16{}, typeClasses...)
+	for _, a := range hv.Audit {
+		if t, err := auparse.GetAuditMessageType(a); err == nil {
+			types = append(types, uint16(t))
+		}
+	}
+	keyLike := func(s string) bool {
+		if s == "" || len(s) > 24 {
+			return false
+		}
+		for _, ch := range s {
+			if !(ch >= 'a' && ch <= 'z' || ch >= '0' && ch <= '9' || ch == '_' || ch == '-') {
+				return false
+			}
+		}
+		return true
+	}
+	var keys, vals []string
+	for _, l := range hv.Strings {
+		if keyLike(l) {
+			keys = append(keys, l)
+		}
+		if len(l) <= 40 && !strings.ContainsAny(l, "\x00\n") {
+			vals = append(vals, l)
+		}
+	}
+	for _, k := range keys {
+		for _, v := range vals {
+			for _, t := range types {
+				if !c.Mine() {
+					continue
+				}
+				name := auparse.AuditMessageType(t).String()
+				checkSuccess(c, header{name, t, "1700000000", "123", "42", " pid=1 " + k + "=" + v + " uid=0"})
+				checkSuccess(c, header{name, t, "1700000000", "123", "42", " " + k + "=\"" + v + "\" res=1"})
+			}
+		}
+	}
+	c.Sample(fmt.Sprintf("%d key-like x %d literals of auparse x %d record types x plain/quoted", len(keys), len(vals), len(types)))
 }
 
 // c04Runes: multi-byte text (every Unicode white-space code point, invisible characters,
